@@ -94,9 +94,10 @@ ASSUMPTIONS = [
     "a builtin ValueError raised by str.format at call time for a template that is not 'literals and {{fields}}' is the documented "
     "behaviour of format_context and not counted as a foreign exception",
 ]
-RULE = ("addr: every context over keys {a,b} of depth <= 2 with leaves {1,'b',None} (400; thorough: depth <= 3 with leaves {1,'b'}, "
-        "21609) x every key path of length 0..4 over {a,b,1} (121; thorough depth 3: 56) x dotted/list/dict notations, with and "
-        "without default, contains, plus seeded random contexts over {a,b,c,1,None} of depth <= 3; getx: malformed keys and "
+RULE = ("addr: every context over keys {a,b} of depth <= 2 with leaves {1,'b',None} (400) and - thorough: every, quick: 400 sampled - "
+        "context of depth <= 3 with leaves {1,'b'} (21609) x every key path of length 0..4 over {a,b,1} (121) x dotted/list/two "
+        "dictionary notations, with and without default, contains, plus seeded random contexts over {a,b,c,1,None,..} of depth <= 3; "
+        "getx: malformed keys and "
         "dictionaries; s2d: all dotted strings of <= 4 components over {a,b,''} x values; format: all templates of 0..3 fields "
         "(paths of length 1..2 over {a,b}) with literals from {'', 'x_', ': !'} x 13 contexts, every string of length <= 6 over "
         "'{}a.' (thorough <= 7, plus '!:'), non-strings; tostr: families of contexts with every key order and one-step mutants; "
@@ -402,9 +403,13 @@ def gen_cases(ctx):
     alpha = ["a", "b", "1"]
     for d in all_dicts(["a", "b"], [1, "b", None], 2):
         cases.append({"op": "addr", "d": enc(d), "alpha": alpha, "maxlen": 4})
+    deep = all_dicts(["a", "b"], [1, "b"], 3)
     if thorough:
-        for d in all_dicts(["a", "b"], [1, "b"], 3):
-            cases.append({"op": "addr", "d": enc(d), "alpha": alpha, "maxlen": 3, "alpha4": ["a", "b"]})
+        for d in deep:
+            cases.append({"op": "addr", "d": enc(d), "alpha": alpha, "maxlen": 4})
+    else:
+        for d in rng.sample(deep, 400):
+            cases.append({"op": "addr", "d": enc(d), "alpha": alpha, "maxlen": 4})
     for _ in range(3000 if thorough else 150):
         keys = rng.choice([["a", "b", "c"], ["a", "1", "None"], ["a", "b", "True", "x.y"]])
         cases.append({"op": "addr", "d": enc(rand_ctx(rng, keys, rng.randint(1, 3))),
@@ -1511,7 +1516,7 @@ def _oracle_uc(case, res):
         if not c["data_ok"] or not c["payload_ok"]:
             return f"{what} on {item} changed or replaced the data"
         if e[0] == "skip":
-            if not c["same"]:
+            if not c["same"] and (ctx is None or c["ctx"] is None):
                 return f"{what} on {item}: missing key with skip_on_missing, the value must be returned as it is"
             if ctx is not None and not strict_eq(dec(c["ctx"]), ctx):
                 return f"{what} on {item}: skipped but the context became {dec(c['ctx'])!r}"
